@@ -86,6 +86,8 @@ def corpus(workdir, seed, tier):
     out.append(("multi", "thrift", [a]))
     out.append(("nested", "protobuf", [put("nested.proto", NESTED_PROTO)]))
     out.append(("shop", "thrift", [shop_thrift(put)]))
+    import compilesuite
+    out.append(("cycles", "thrift", [put("cycles.thrift", compilesuite.cycles_doc(random.Random(seed * 7 + 1), 60 if tier == "quick" else 160))]))
     out.append(("shopp", "protobuf", [shop_proto(put)]))
     for d in idlgen.fixed_docs():
         out.append((d["name"], "thrift", [put(d["name"] + ".thrift", idlgen.render(d))]))
